@@ -22,6 +22,7 @@ func TestReplay(t *testing.T) { pbt.Replay(t) }
 type Case struct {
 	Schema pmodel.Schema `json:"schema"`
 	Mode   int           `json:"mode"` // meta.ParseServiceMode
+	Reuse  bool          `json:"reuse"` // the includes map served another schema under the same file name before
 }
 
 var kindType = map[protoreflect.Kind]dproto.Type{
@@ -205,6 +206,17 @@ func check(c *pbt.Ctx, cs Case) {
 		inc[k] = v
 	}
 	mode := meta.ParseServiceMode(cs.Mode)
+	if cs.Reuse {
+		// the caller's includes map is used for another schema under the same file name first (the library stores the
+		// main file into the map it is given): the second call must describe the content it is handed
+		delete(inc, cs.Schema.Main)
+		c.Step("NewDescriptorFromContent of another schema under the same file name, same includes map")
+		decoy := "syntax = \"proto3\";\npackage decoy;\nmessage Root { int32 zz = 1; string count = 2; }\nservice Decoy { rpc Only(Root) returns (Root); }\n"
+		if _, derr := (dproto.Options{ParseServiceMode: mode}).NewDesccriptorFromContent(context.Background(), cs.Schema.Main, decoy, inc); derr != nil {
+			c.Failf("idl-error", "dynamicgo rejects the decoy schema: %v", derr)
+		}
+		c.Class("includes-map-reused")
+	}
 	c.Step("NewDescriptorFromContent mode=%d", cs.Mode)
 	svc, err := dproto.Options{ParseServiceMode: mode}.NewDesccriptorFromContent(context.Background(), cs.Schema.Main, files[cs.Schema.Main], inc)
 	if err != nil {
@@ -440,7 +452,7 @@ var Prop = pbt.Register(pbt.Prop[Case]{
 	Name: "TestProtoDescriptors",
 	Rule: "generated proto3 files (main package + imported package; nested message declarations; field names whose 32-bit DJB hash is 0, also as the only field of a message; the simple name Item declared in up to five scopes: A.Item, A.Item.Item, B.Item, pkg.Item, other.sub.Item; map fields with equal names in different messages; relative, qualified and fully-qualified type references; recursion; every map key kind; 1..3 services with unary/streaming methods) x ParseServiceMode; the dynamicgo descriptor graph is walked in parallel with protobuf-go's descriptors (built from jhump protoparse output): method set and streaming flags, per reachable message exactly the declared fields (their count, number, name, JSON name, kind, list/map structure, packedness, key kind), message-typed fields must describe the fully-qualified type the schema names; ByNumber over 0..max+2 (field numbers up to 131073), over every declared number shifted by multiples of 2^16 / 2^24 / 2^28 and negated, and ByName/ByJSONName over a key family must find a field iff declared; non-trivial = a simple message name reached under two different full names",
 	Gen: func(t *rapid.T) Case {
-		return Case{Schema: genSchema(t), Mode: rapid.IntRange(0, 2).Draw(t, "mode")}
+		return Case{Schema: genSchema(t), Mode: rapid.IntRange(0, 2).Draw(t, "mode"), Reuse: rapid.Bool().Draw(t, "reuse")}
 	},
 	Check: check,
 })
